@@ -36,7 +36,8 @@ Inductive choice := SchedStep | ChildExit (t : task) | Reap (t : task) | ReapCan
 Section Run.
 Variable P : plan.
 Variable fail_on_undefined : bool.
-Variable code : task -> nat.     (* exit code each child will produce *)
+Variable code : task -> nat.     (* how each child will end: 0..255 = its exit code; >= 256 = killed by a signal
+                                    (ExitStatus::success() is false and ExitStatus::code() is None) *)
 
 Definition init : st :=
   {| cpos := 0; gpos := 0; ph := Spawning 0; failed := false; cancelled := false;
@@ -131,7 +132,8 @@ Definition step (s : st) (c : choice) : st :=
             {| cpos := cpos s; gpos := gpos s; ph := Waiting; failed := failed s || negb ok;
                cancelled := cancelled s || negb ok;
                tracked := tremove t (tracked s); running := running s; exited := exited s;
-               results := (t, if ok then Success else Error (Some (code t))) :: results s; trace := trace s |}
+               results := (t, if ok then Success else Error (if code t <? 256 then Some (code t) else None)) :: results s;
+               trace := trace s |}
           else s
       | _ => s
       end
